@@ -143,6 +143,20 @@ CHECKS = {
          'bounded-exhaustive words x positions x legacy variants, differential against equivalent v3 parser objects (literal + structural)',
          'DESIGN.md section 4 C16'),
 
+ 'C03': ('exploration',
+         'Every derivation of the core grammar (text, groups, \\textbf/\\emph, symbols \\alpha \\o \\ss \\&, accents with token and group arguments, \\frac, \\sqrt[ ]{ }, specials ~ -- --- `` \'\' &, comments, paragraph breaks, itemize + \\item, '
+         'an unknown environment, $ \\( $$ \\[ and equation, \\label) up to size 3 with <= 1 (quick) / 2 (thorough) whitespace/comment deviations x 32 option sets (4 strict_latex_spaces policies x 4 math modes x keep_braced_groups): '
+         'latex_to_text(strict parse) equals, exactly, a 120-line reference renderer applying the documented rules to the parsed tree; plus every ordered pair of self-contained blocks joined by a paragraph break / space is rendered compositionally.',
+         'Trusted: mc/ref/l2t.py (rules + a ~25-name symbol/accent/specials table transcribed from the documentation); the parsed tree (C01/C02). fill_text is outside C03.',
+         'exhaustive derivations with bounded deviations x option product against a reference renderer; metamorphic composition check',
+         'DESIGN.md section 4 C03'),
+ 'C12': ('exploration',
+         'Every derivation of the core grammar (+ \\label) up to size 3 in which every text item and every comment is replaced by a unique marker word, under 48 option sets (4 math modes x keep_comments x 3 whitespace policies x fill_text) '
+         'and 2 text databases (default; custom with discard=True macro and environment): presence/absence of each marker and of formula sources / delimiters follows from the derivation (inside formula, inside discarded or unrendered construct, comment vs text).',
+         'Trusted: marker classes computed from the derivation in mc/checks/c12.py (which arguments are rendered is taken from the documented replacement strings: \\sqrt renders its mandatory argument only, environments render their body only); outermost formulas located in the parsed tree.',
+         'exhaustive derivations with unique markers x option product, presence/absence oracle from the derivation',
+         'DESIGN.md section 4 C12'),
+
  'C11': ('model_checking',
          'Explicit-state exploration of the real LatexTokenReader: every state (remaining input, configuration) for all words of length '
          '<= 3 (quick) / 4 (thorough) over a 15-symbol alphabet x 6172 configurations (math mode and delimiter, 2^7 enable_* switches, extra group '
